@@ -109,9 +109,25 @@ ImportTarget(lvl, m) ==
            p  == Up(cm, l1)
        IN IF p = NoObj THEN <<>> ELSE FN(st, p) \o [j \in 1..Len(m) |-> P(m[j])]
 
+\* What pydoctor READS as __all__ (astbuilder.processModuleAST: findModuleLevelAssign + parseAll, before the module is walked):
+\* the last statement of the module body of the form `__all__ = <list or tuple literal>`.  Mod(m).all is the value __all__ has
+\* when the module is imported; Mod(m).allform says how the source writes it, allsplit how many names the first statement has
+\* for the forms written in two parts.  An augmented assignment, .extend() / .append(), a concatenation or an assignment
+\* nested in an `if` are not read.
+ReadsAll(m) == Mod(m).hasAll /\ Mod(m).allform \notin {"concat", "conditional"}
+AllRead(m) == IF Mod(m).allform \in {"augmented", "extend", "append"} THEN SubSeq(Mod(m).all, 1, Mod(m).allsplit) ELSE Mod(m).all
+\* names a star import brings in: __all__ or the public names of contents then of the alias table, in dict order
+StarNames(s, m) == LET mi == s.objs[m].site.m IN
+                   IF ~Mod(mi).broken /\ mstate[mi] # "UNPROCESSED" /\ ReadsAll(mi) THEN AllRead(mi)
+                   ELSE SelectSeq(s.ord[m] \o s.aord[m], LAMBDA x : x \notin Priv)
 \* getProcessedModule(q) would process q now
 NeedEnsure(q) == LET t == Get(st, q) IN IsMod(t) /\ mstate[ModIdx(t)] = "UNPROCESSED"
-EnsureTargets == IF Op.k = "star" THEN <<ImportTarget(Op.lvl, Op.m)>>
+\* (a star import of a PACKAGE also analyses the sub-modules among the names it is about to bring in)
+EnsureTargets == IF Op.k = "star"
+                   THEN LET q == ImportTarget(Op.lvl, Op.m)
+                            t == IF q = <<>> THEN NoObj ELSE Get(st, q)
+                        IN <<q>> \o (IF IsMod(t) /\ Cls(st, t) = "Package" /\ mstate[ModIdx(t)] # "UNPROCESSED"
+                                       THEN LET ns == StarNames(st, t) IN [i \in 1..Len(ns) |-> Append(q, P(ns[i]))] ELSE <<>>)
                  ELSE IF Op.k = "import" THEN <<[j \in 1..Len(Op.m) |-> P(Op.m[j])]>>      \* visit_Import looks at the module too
                  ELSE LET q == ImportTarget(Op.lvl, Op.m) IN
                       <<q>> \o (IF IsMod(Get(st, q)) /\ Cls(st, Get(st, q)) = "Package" THEN <<Append(q, P(Op.orig))>> ELSE <<>>)
@@ -134,13 +150,6 @@ OnDemand == /\ InBody /\ Op.k \in {"from", "star", "import"} /\ FirstNeeded # <<
             /\ UNCHANGED <<st, mobj, classes, phase, post>>
 
 \* ---------------------------------------------------------------- _handleReExport / alias binding of one name
-\* What pydoctor READS as __all__ (astbuilder.processModuleAST: findModuleLevelAssign + parseAll, before the module is walked):
-\* the last statement of the module body of the form `__all__ = <list or tuple literal>`.  Mod(m).all is the value __all__ has
-\* when the module is imported; Mod(m).allform says how the source writes it, allsplit how many names the first statement has
-\* for the forms written in two parts.  An augmented assignment, .extend() / .append(), a concatenation or an assignment
-\* nested in an `if` are not read.
-ReadsAll(m) == Mod(m).hasAll /\ Mod(m).allform \notin {"concat", "conditional"}
-AllRead(m) == IF Mod(m).allform \in {"augmented", "extend", "append"} THEN SubSeq(Mod(m).all, 1, Mod(m).allsplit) ELSE Mod(m).all
 CurExports(s) == IF IsModCls(Cls(s, Cur)) /\ ReadsAll(Top.mod) THEN SeqRange(AllRead(Top.mod)) ELSE {}
 \* returns the new registry state
 BindOne(s, modq, m, orig, as, fallback) ==
@@ -165,10 +174,6 @@ ExecFrom == /\ InBody /\ Op.k = "from" /\ FirstNeeded = <<>>
                  ELSE st' = BindOne(st, q, Get(st, q), Op.orig, Op.as, Append(q, P(Op.orig)))
             /\ Advance /\ UNCHANGED <<mobj, mstate, unproc, classes, phase, log, post>>
 
-\* names a star import brings in: __all__ or the public names of contents then of the alias table, in dict order
-StarNames(s, m) == LET mi == s.objs[m].site.m IN
-                   IF ~Mod(mi).broken /\ mstate[mi] # "UNPROCESSED" /\ ReadsAll(mi) THEN AllRead(mi)
-                   ELSE SelectSeq(s.ord[m] \o s.aord[m], LAMBDA x : x \notin Priv)
 RECURSIVE BindStar(_, _, _, _, _)
 BindStar(s, q, m, names, i) ==
   IF i > Len(names) \/ s.crash THEN s
